@@ -89,10 +89,15 @@ DevIter(T, ev) ==
 DevIterExplains(T, ev) ==
   CASE DevIter(T, ev) = "DevEagerNext" -> ev.iter \in RangeErr
     [] DevIter(T, ev) = "DevEagerNextWraps" ->
-         /\ ev.iter = "runaway"
-         /\ Len(ev.seq) > ev.n
-         /\ \A j \in 1..ev.n : ZEq(ev.seq[j], Elem(ev, j))
-         /\ ZEq(ev.seq[ev.n + 1], ZWrap(FALSE, T.bits, Elem(ev, ev.n + 1)))
+         \* the loop continues from the wrapped sum for as long as that is not beyond end
+         LET nx(x) == ZWrap(FALSE, T.bits, ZAdd(x, StepOf(ev)))
+             len == Len(ev.seq)
+         IN /\ ev.iter \in {"ok", "runaway"}
+            /\ len > ev.n
+            /\ ZEq(ev.seq[1], ev.start)
+            /\ \A j \in 1..(len - 1) : ZEq(ev.seq[j + 1], nx(ev.seq[j]))
+            /\ \A j \in 1..len : ~Beyond(ev.seq[j], ev.end, StepOf(ev))
+            /\ (ev.iter = "ok" => Beyond(nx(ev.seq[len]), ev.end, StepOf(ev)))
     [] OTHER -> FALSE
 
 StrictlyBetween(x, s, e) == (ZLt(s, x) /\ ZLt(x, e)) \/ (ZLt(e, x) /\ ZLt(x, s))
